@@ -91,6 +91,7 @@ type DB struct {
 	commitSeq     uint64
 	DefaultSchema string
 	Clock         TS // logical clock, advanced by the harness
+	LoopLimit     int // iterations after which a PL/pgSQL LOOP is aborted with SQLSTATE 54000 (0: one million); a harness guard, not PostgreSQL behaviour
 	Sched         Scheduler
 	advisory      map[int64]*advLock
 	Log           func(sess int, sql string)
@@ -163,6 +164,54 @@ func (db *DB) AddTable(schema, name string, cols []string) *Table {
 	return t
 }
 
+// sch resolves the schema of an unqualified name in the current execution context
+func (ex *Exec) sch(schema string) string {
+	if schema != "" {
+		return schema
+	}
+	if ex.sess != nil && ex.sess.schemaCtx != "" {
+		return ex.sess.schemaCtx
+	}
+	return ex.db.DefaultSchema
+}
+
+// withSchema runs f with unqualified names resolving in schema (function bodies, triggers, column defaults)
+func (ex *Exec) withSchema(schema string, f func()) {
+	if ex.sess == nil || schema == "" {
+		f()
+		return
+	}
+	old := ex.sess.schemaCtx
+	ex.sess.schemaCtx = schema
+	defer func() { ex.sess.schemaCtx = old }()
+	f()
+}
+
+// seqKey: sequences live in a schema; a qualified name is exact, an unqualified one resolves in the context schema, then the
+// default schema, then any schema holding a sequence of that name (search_path approximation)
+func (ex *Exec) seqKey(s string) string {
+	s = strings.ReplaceAll(s, `"`, "")
+	if i := strings.LastIndex(s, "."); i >= 0 {
+		return s
+	}
+	for _, c := range []string{ex.sch(""), ex.db.DefaultSchema} {
+		if _, ok := ex.db.seqs[c+"."+s]; ok {
+			return c + "." + s
+		}
+	}
+	var names []string
+	for k := range ex.db.seqs {
+		if strings.HasSuffix(k, "."+s) {
+			names = append(names, k)
+		}
+	}
+	sort.Strings(names)
+	if len(names) > 0 {
+		return names[0]
+	}
+	return ex.sch("") + "." + s
+}
+
 func (db *DB) nextval(name string) int64 {
 	s := db.seqs[name]
 	if s == nil {
@@ -207,6 +256,9 @@ type Session struct {
 	sessAdv  map[int64]int
 	Waiting  uint64
 	Tag      string
+	// schemaCtx: the schema unqualified names resolve in while a function / trigger / column default of that schema runs
+	// (the bucket's functions are created with `set search_path`); empty = the connection default (db.DefaultSchema)
+	schemaCtx string
 }
 
 func (db *DB) NewSession() *Session {
@@ -568,13 +620,13 @@ func (ex *Exec) runTop(st Stmt) *Result {
 		for i, a := range n.Args {
 			args[i] = root.Eval(a)
 		}
-		ex.callFunction(fn, args)
+		ex.withSchema(n.Schema, func() { ex.callFunction(fn, args) })
 		return &Result{Tag: "CALL"}
 	case *CreateSequence:
-		ex.db.seqs[n.Name] = &sequence{next: 1}
+		ex.db.seqs[ex.sch(n.Schema)+"."+n.Name] = &sequence{next: 1}
 		return &Result{Tag: "CREATE SEQUENCE"}
 	case *CreateTrigger:
-		t := ex.db.table(n.Schema, n.Table)
+		t := ex.db.table(ex.sch(n.Schema), n.Table)
 		for _, tr := range t.Triggers {
 			if tr.Name == n.Name {
 				panic(errf("42710", "trigger %q already exists", n.Name))
@@ -584,7 +636,7 @@ func (ex *Exec) runTop(st Stmt) *Result {
 		sort.SliceStable(t.Triggers, func(i, j int) bool { return t.Triggers[i].Name < t.Triggers[j].Name }) // PG fires in name order
 		return &Result{Tag: "CREATE TRIGGER"}
 	case *DropTrigger:
-		t := ex.db.table("", n.Table)
+		t := ex.db.table(ex.sch(""), n.Table)
 		var kept []*Trigger
 		for _, tr := range t.Triggers {
 			if tr.Name != n.Name {
@@ -601,11 +653,14 @@ func (ex *Exec) runTop(st Stmt) *Result {
 		return &Result{Tag: "DROP FUNCTION"}
 	case *CreateIndex:
 		if n.Unique {
-			ex.db.addUnique(n)
+			ex.db.addUnique(n, ex.sch(n.Schema))
 		}
 		return &Result{Tag: "CREATE INDEX"}
 	case *DropIndex:
 		for _, t := range ex.db.tables {
+			if t.Schema != ex.sch("") {
+				continue // index names are per schema
+			}
 			var kept []*UniqueIdx
 			for _, u := range t.Uniques {
 				if u.Name != n.Name {
@@ -617,6 +672,9 @@ func (ex *Exec) runTop(st Stmt) *Result {
 		return &Result{Tag: "DROP INDEX"}
 	case *RenameIndex:
 		for _, t := range ex.db.tables {
+			if t.Schema != ex.sch("") {
+				continue
+			}
 			var kept []*UniqueIdx
 			for _, u := range t.Uniques {
 				if u.Name == n.To {
@@ -645,11 +703,18 @@ func (r *Rel) affected() int {
 	return len(r.Rows)
 }
 
-func (db *DB) addUnique(n *CreateIndex) {
-	var t *Table
-	for _, tt := range db.tables {
-		if tt.Name == n.Table {
-			t = tt
+func (db *DB) addUnique(n *CreateIndex, schema string) {
+	t := db.tables[schema+"."+n.Table]
+	if t == nil {
+		var keys []string
+		for k, tt := range db.tables {
+			if tt.Name == n.Table {
+				keys = append(keys, k)
+			}
+		}
+		sort.Strings(keys)
+		if len(keys) > 0 {
+			t = db.tables[keys[0]]
 		}
 	}
 	if t == nil {
@@ -684,13 +749,18 @@ func (db *DB) LoadMigration(name, text string) error {
 			continue
 		}
 		var fields []string
+		ftypes := map[string]string{}
 		for _, f := range strings.Split(m[2], ",") {
 			fs := strings.Fields(f)
 			if len(fs) > 0 {
 				fields = append(fields, strings.ToLower(fs[0]))
+				if len(fs) > 1 {
+					ftypes[strings.ToLower(fs[0])] = strings.ToLower(strings.Trim(fs[1], "()"))
+				}
 			}
 		}
 		compositeTypes[tn] = fields
+		compositeFieldTypes[tn] = ftypes
 	}
 	toks, err := lex(text)
 	if err != nil {
@@ -790,5 +860,20 @@ func (db *DB) Catalog() []string {
 	}
 	sort.Strings(fns)
 	out = append(out, "functions: "+strings.Join(fns, " "))
+	return out
+}
+
+// Sequences returns every sequence (schema-qualified name) with its next value, for frame checks
+func (db *DB) Sequences() map[string]int64 {
+	db.mu.Lock()
+	defer db.mu.Unlock()
+	out := map[string]int64{}
+	for k, s := range db.seqs {
+		v := s.next
+		if s.isCalled {
+			v++
+		}
+		out[k] = v
+	}
 	return out
 }
